@@ -2,20 +2,21 @@ SPECIFICATION Spec
 CONSTANTS
   Cfg0 <- MCfg
   Types <- MTypes
-  MaxEv = 3
-  MaxAct = 3
-  Budget = 2
-  NDrv = 1
+  MaxEv = 2
+  MaxAct = 2
+  Budget = 1
+  NDrv = 2
   DrvBudget = 2
-  MaxDepth = 2
+  MaxDepth = 1
   QueueCap = 0
   HardLimit = 0
   WithErrors = TRUE
-  WithIdle = FALSE
+  WithIdle = TRUE
   WithSleep = FALSE
-  KeepLog = FALSE
+  KeepLog = TRUE
 INVARIANT TypeOK
 INVARIANT LockOK
 INVARIANT NoUnexplainedWitness
 INVARIANT TerminalOK
+INVARIANT EmitBehaviour
 CHECK_DEADLOCK FALSE
